@@ -1,5 +1,66 @@
-"""Correspondence for the definedness model (filled in once Defined.lean exists)."""
+"""Correspondence for the definedness model (Defined.lean): for every instance of a modelled rare mechanism observed
+in the executed runs, and for a function-level sweep of the training-option schedule, the model's ok/error verdict vs
+what the real code did at that mechanism."""
+import types
+import numpy as np
+
+SITES = {"trainopts": "_get_gp_training_options", "result": "set_attributes", "es": "__call__", "merged_value": "_is_gp_refit_time_",
+         "target_fallback": "_poll_step_"}
+
+
+def _train_opts_sweep(ctx, rep):
+    import pybads.bads.gaussian_process_train as gpt
+    reqs, obs = [], []
+    for eff in (3, 5, 21, 33):
+        for budget in range(max(1, eff - 3), eff + 5):
+            for n_eff in (eff, eff + 1, eff + 7):
+                fl = types.SimpleNamespace(n_evals=np.ones((n_eff, 1)), X_flag=np.ones(n_eff, dtype=bool))
+                opts = {"gp_train_init_method": "rand", "gp_tol_opt": 1e-5, "gp_train_n_init": 128, "gp_train_n_init_final": 8, "max_fun_evals": budget, "n_train_max": 60}
+                try:
+                    gpt._get_gp_training_options({"iter": -1, "eff_starting_points": eff}, None, opts, {}, 0, fl)
+                    ok = True
+                except Exception as ex:
+                    ok = False
+                reqs.append({"cmd": "def.check", "kind": "trainopts", "nEff": n_eff, "eff": eff, "budget": budget, "nTrainMax": 60})
+                obs.append((ok, eff, budget, n_eff))
+    for (ok, eff, budget, n_eff), m in zip(obs, ctx.driver.call_many(reqs)):
+        if m != ok:
+            rep.disagree("Def.trainOpts ~ _get_gp_training_options", f"eff_starting_points={eff} max_fun_evals={budget} n_eff={n_eff}: model {'ok' if m else 'error'} code {'ok' if ok else 'raised'}",
+                         {"kind": "trainopts", "eff": eff, "budget": budget, "n_eff": n_eff})
+    return len(reqs)
 
 
 def correspondence(ctx, rep, traces):
-    return {"status": "model not built yet"}
+    n_sweep = _train_opts_sweep(ctx, rep)
+    reqs, owners = [], []
+    for t in traces:
+        if not t.get("constructed") or t.get("final") is None:
+            continue
+        err_fn = (t["error"]["innermost_pybads"] or [None, None, None])[2] if t["error"] else None
+        inst = []
+        fin = t["final"]
+        if fin.get("unc", 0) > 0 and fin.get("nfs") is not None and "iter" in fin and (t["error"] is None or err_fn == "set_attributes"):
+            inst.append(("result", {"unc": int(fin["unc"]), "pollIter": int(fin["iter"]), "nfs": max(0, int(fin["nfs"]))}))
+        for k, e in t["events"]:
+            if k == "FILT" and e["site"] == "es" and e["n_out"] == 0:
+                inst.append(("es", {"n": 0}))
+            elif k == "CALL" and e.get("rec") and "exc" not in e and e["Xn"] == e["Xn_before"]:
+                inst.append(("merged_value", {}))
+            elif k == "PREDFAULT":
+                inst.append(("target_fallback", {}))
+        seen = set()
+        for kind, args in inst:
+            key = (kind, tuple(sorted(args.items())))
+            if key in seen:
+                continue
+            seen.add(key)
+            reqs.append(dict({"cmd": "def.check", "kind": kind}, **args))
+            owners.append((t, kind, err_fn))
+    hist = {}
+    for (t, kind, err_fn), m in zip(owners, ctx.driver.call_many(reqs)):
+        hist[kind] = hist.get(kind, 0) + 1
+        code_failed_here = err_fn == SITES[kind]
+        if m == code_failed_here:
+            rep.disagree(f"Def ({kind}) ~ rare path", f"model says {'ok' if m else 'error'}, the run {'failed' if code_failed_here else 'did not fail'} in {SITES[kind]}",
+                         {"kind": "run", "spec": t["spec"], "kw": {k: t.get(k) for k in ("predict_faults",) if t.get(k)}})
+    return {"train_option_cases": n_sweep, "mechanism_instances": hist}
